@@ -209,6 +209,7 @@ class ObjRun:
         self.owner = {}             # id -> side
         self.hist = {}              # id -> [(parent, name), ...] every slot the object has had
         self.slots = set()          # every (parent, folded name) ever occupied (G1)
+        self.allow_reuse = False    # G1 lifted (REUSE_TEMPLATES only)
         self.ops = [[], []]
         self.order = []             # real-time order of the accepted ops: (side, op)
         self.dirty = [set(), set()]  # ids of folders beneath which the side created / wrote / moved something in (G2)
@@ -349,7 +350,7 @@ class ObjRun:
         if not self.truth.valid(op, self.fold):
             return False
         if k in ("create", "mkdir", "move"):
-            if (op[2], op[3].lower()) in self.slots:
+            if (op[2], op[3].lower()) in self.slots and not self.allow_reuse:
                 return False                                                            # G1
         if k == "move" and self.truth.o[i][2] == "d" and not unfiltered:
             if i in self.dirty[s]:
@@ -830,6 +831,16 @@ def tpl_chain3_write_deep_outer_rename(E, E2, S, S2):
               [("move", e, None, E2), ("move", e, None, "k9"), ("write", s + "/f.txt")], [("move", s, e, S2)])
 
 
+def tpl_replace_dir_by_file(E, K, F, G):
+    """round 6 (seed R6-C04): a folder is deleted and a FILE takes its name on the same side; the other side edits another file"""
+    return _t([("/" + E, "d"), ("/" + K, "f")], ["/" + K], [("delete", "/" + E), ("create", "+n", None, E)], [("write", "/" + K)])
+
+
+def tpl_replace_file_by_dir(E, K, F, G):
+    """a file is deleted and a FOLDER takes its name on the same side; the other side renames another file"""
+    return _t([("/" + E, "f"), ("/" + K, "f")], ["/" + K], [("delete", "/" + E), ("mkdir", "+n", None, E)], [("move", "/" + K, None, G)])
+
+
 # name tuples: (old, new) pairs in both alphabetical orders
 N4 = [("a", "f.txt", "d", "d2"), ("m", "f.txt", "d", "b"), ("a", "f.txt", "e", "a1"), ("z", "g.txt", "e", "e2"),
       ("b", "f.txt", "a", "c"), ("d", "x.txt", "m", "a0")]
@@ -840,6 +851,7 @@ NAFDE = [("a", "f.txt", "d", "e"), ("m", "f.txt", "d", "b"), ("a", "f.txt", "z",
 NEED = [("e", "e2", "d", "g.txt"), ("e", "a1", "d", "g.txt"), ("e", "e2", "a", "b.txt"), ("b", "z", "m", "f.txt")]
 NESS = [("e", "e2", "s", "s2"), ("e", "a1", "s", "b"), ("e", "e2", "s", "a"), ("m", "c", "k", "z")]
 NPAD = [("p", "a", "d", "d2"), ("p", "m", "d", "b"), ("b", "z", "a", "c")]
+NREUSE = [("e", "k.txt", "f.txt", "g.txt"), ("m", "a.txt", "f.txt", "z.txt"), ("b", "z.txt", "f.txt", "a0.txt")]
 NPPA = [("p", "p2", "a", "d"), ("p", "a1", "m", "b"), ("b", "z", "s", "c")]
 
 TEMPLATES = [
@@ -891,7 +903,14 @@ TEMPLATES = [
     ("chain:inner-dirrename+dirrename|movein-dir", tpl_chain_dirrename_inner, NEED),
     ("chain:nested filerename+dirrename|inner-dirrename", tpl_chain_nested_filerename, NEED),
     ("chain:nested filerename+dirrename|inner-dir-moveout", tpl_chain_nested_filerename_moveout, NEED),
+    # round 6: type replacement at one name (appended last: template indices in stored replays stay valid)
+    ("replace-dir-by-file|write", tpl_replace_dir_by_file, NREUSE),
+    ("replace-file-by-dir|rename", tpl_replace_file_by_dir, NREUSE),
 ]
+# templates that re-use a name on purpose: generator rule G1 (no name slot is occupied twice in one run) is lifted for them.  They are
+# calibrated on the stable-id flavours only (10 080 runs of the pinned engine, every interleaving, random schedules: all accepted by the Lean monitor) and are
+# drawn by their own block of plan(), so the draws of the other blocks are what they were before round 6
+REUSE_TEMPLATES = {"replace-dir-by-file|write", "replace-file-by-dir|rename"}
 
 # templates whose shape the pinned engine itself gets wrong on some schedules (filters X1-X3): not part of the check's generator;
 # one exact replay of each is a known finding (KNOWN below)
@@ -941,6 +960,7 @@ def run_scenario(flavour, ti, ni, swap, il, words, rotation, base_side, rng, sto
     name, f, names = TEMPLATES[ti]
     t = f(*names[ni])
     run = ObjRun(flavour, rng, storage)
+    run.allow_reuse = name in REUSE_TEMPLATES
     run.scenario = {"template": name, "names": list(names[ni]), "swap": swap, "interleaving": il, "words": list(words),
                     "rotation": rotation, "base_side": base_side}
     side_of = {"L": swap, "R": 1 - swap}
@@ -1269,7 +1289,8 @@ def plan(tier, seed):
     """the runs of one check: list of (kind, flavour, params).  kinds: 'enum' sampled enumerated scenario x random schedule,
     'prefix' / 'gaps' exhaustive schedule blocks of one scenario, 'random' the random family"""
     rng = rng_for(seed, "c04-objects-plan")
-    space = scenario_space(live_only=True)
+    full_space = scenario_space(live_only=True)
+    space = [x for x in full_space if TEMPLATES[x[0]][0] not in REUSE_TEMPLATES]
     out = []
     quick = tier == "quick"
     n_enum = 260 if quick else 2200
@@ -1323,6 +1344,14 @@ def plan(tier, seed):
         for w1 in short:
             for w2 in short:
                 out.append(("gaps", fl, (ti, ni, swap, il, [w1, w2], rot, bs, 1)))
+    # round 6: type replacement at one name (own block, own generator state)
+    rng2 = rng_for(seed, "c04-objects-plan-reuse")
+    reuse = [x for x in full_space if TEMPLATES[x[0]][0] in REUSE_TEMPLATES]
+    for fl in OBJ_FLAVOURS:
+        for _ in range(40 if quick else 600):
+            ti, ni, swap, il = rng2.choice(reuse)
+            words, rot = draw_schedule(rng2, len(il))
+            out.append(("enum", fl, (ti, ni, swap, il, words, rot, rng2.randint(0, 1), rng2.getrandbits(32))))
     return out
 
 
